@@ -3,7 +3,8 @@
 Writer: for every sample-granular AIFF encoding the library accepts (vlib/formats.py) x endianness option x channels
 x sample rate x frame count, a session  open / dump / write / header update / dump / write / close / dump / re-open
 runs on the library (memory SF_VIRTUAL_IO) and on the model; every file byte before the audio data and after it is
-compared (nothing is masked: the PEAK time stamp is the harness clock), the audio region is compared by length.
+compared (nothing is masked: the PEAK time stamp is the harness clock); the audio region is compared with the model's own
+encoding of the samples (Enc.encodeAll, up to 8 KiB per session; by length beyond).
 Independently of the model the C04 predicate is evaluated on the library's own transcript (re-open info, FORM and SSND
 size fields against the real length); that decides between `VIOLATION … replay` and `… no-failing-input-found`.
 
@@ -19,7 +20,6 @@ GRAN = (0x01, 0x05, 0x02, 0x03, 0x04, 0x06, 0x07, 0x10, 0x11)
 BYTEWIDTH = {0x01: 1, 0x05: 1, 0x10: 1, 0x11: 1, 0x02: 2, 0x03: 3, 0x04: 4, 0x06: 4, 0x07: 8}
 RATES = [1, 2, 3, 8000, 11025, 44100, 65535, 65536, 2 ** 30 - 1, 2 ** 30, 2 ** 31 - 1]
 CHANNELS = [1, 2, 3, 6]
-KF_RATE = "KF-AIFF-RATE-2P30"
 TINY = 0x0DA24260          # binary32 pattern of the smallest float >= 1e-30
 
 
@@ -105,13 +105,18 @@ class Job:
         L += ["close h0", "dump s0"]
         if reopen:
             L.append("open h1 s0 r")
+            # a read/write handle opened on the closed file and closed again without a call must leave it as it is
+            L += ["close h1", "open h2 s0 rw fmt=%08x ch=%d sr=%d" % (self.f.word, self.ch, self.sr), "close h2", "dump s0", "open h3 s0 r"]
         return "\n".join(L) + "\n"
 
     def model_line(self):
         ops = ["d"]
         for i, p in enumerate(self.parts):
             if p > 0:
-                op = ("W" if self.auto else "w") + str(p * self.bw)
+                if self.n * self.bw <= 8192:      # typed write: the model encodes the samples itself (SfModel/AiffAudio.lean)
+                    op = ("X" if self.auto else "x") + self.ty + "@" + self.hexvals(self.vals[i])
+                else:
+                    op = ("W" if self.auto else "w") + str(p * self.bw)
                 if self.flt:
                     op += ":" + "/".join("%08x,%d" % pk for pk in self.peaks_after(i))
                 ops.append(op)
@@ -178,24 +183,19 @@ def chunk_walk(b):
 
 
 def c04_predicate(job, final, reopen_line):
-    """problems of the library's own result against the C04 statement (empty list = holds); second value: the failure
-    is exactly the known 2^30 sample-rate class"""
-    probs, known = [], False
+    """problems of the library's own result against the C04 statement (empty list = holds)"""
+    probs = []
     if not reopen_line.startswith("open=ok"):
-        return ["re-open of the closed file fails: " + reopen_line], False
+        return ["re-open of the closed file fails: " + reopen_line]
     d = kv(reopen_line)
     if int(d["ch"]) != job.ch:
         probs.append("channels %s, written with %d" % (d["ch"], job.ch))
     if int(d["fmt"], 16) != expected_word(job.f):
         probs.append("format word %s, expected %08x" % (d["fmt"], expected_word(job.f)))
     if int(d["sr"]) != job.sr:
-        if job.sr >= 2 ** 30 and int(d["sr"]) == 800000000:
-            known = True
-        else:
-            probs.append("sample rate %s, requested %d" % (d["sr"], job.sr))
+        probs.append("sample rate %s, requested %d" % (d["sr"], job.sr))
     fr = int(d["frames"])
-    pad_ok = job.bw == 1 and job.n % 2 == 1          # one pad frame where the container pads an odd byte count
-    if not (fr == job.n or (pad_ok and fr == job.n + 1)):
+    if fr != job.n:                                   # the pad byte after an odd byte count is not a frame
         probs.append("frames %d, %d written" % (fr, job.n))
     form, chunks = chunk_walk(final)
     if form is None or form != (len(final) - 8) % 2 ** 32:
@@ -212,11 +212,11 @@ def c04_predicate(job, final, reopen_line):
         probs.append("no single SSND chunk")
     else:
         _, off, size = ss[0]
-        if off + 4 + size != len(final) or len(final) % 2:
-            probs.append("SSND size field %d does not reach the (even) end of file: chunk ends at %d, file has %d bytes" % (size, off + 4 + size, len(final)))
-        if size - 8 - job.n * job.bw not in (0, 1):
+        if off + 4 + size + (size & 1) != len(final) or len(final) % 2:
+            probs.append("SSND chunk (size field %d) plus its pad byte does not reach the (even) end of file: ends at %d, file has %d bytes" % (size, off + 4 + size + (size & 1), len(final)))
+        if size - 8 != job.n * job.bw:
             probs.append("SSND size field %d for %d audio bytes" % (size, job.n * job.bw))
-    return probs, known
+    return probs
 
 
 def parse_dump(line):
@@ -230,16 +230,19 @@ def writer_campaign(ctx, fmts, quick):
     impl = ctx.batch(scripts, workers=4)
     model = ctx.run_model(["aiff"], "".join(j.model_line() + "\n" for j in jobs)).split("\n")
     stats = collections.Counter()
-    corr, pred, known, files = [], [], [], []
+    corr, pred, files = [], [], []
     for i, j in enumerate(jobs):
         name, script = scripts[i]
         lines = impl.get(name, [])
         stats["sessions"] += 1
         ctx.distinct.add("aiff:%s:c%d" % (j.f.name, j.ch))
         ctx.distinct.add("aiff:rate:%d" % j.sr if j.sr in RATES else "aiff:rate:seeded")
-        dumps = [parse_dump(l) for l in lines if l.startswith("len=")]
-        reopen = lines[-1] if lines else ""
-        if any(l.startswith(("CRASH", "ABORT", "TIMEOUT")) for l in lines) or len(dumps) != 3:
+        ops = script.strip().split("\n")
+        alld = [parse_dump(l) for l in lines if l.startswith("len=")]
+        dumps = alld[:3]
+        ro = [k for k, o in enumerate(ops) if o.startswith("open h1 ")]
+        reopen = lines[ro[0]] if ro and ro[0] < len(lines) else ""
+        if any(l.startswith(("CRASH", "ABORT", "TIMEOUT")) for l in lines) or len(alld) != 4 or len(lines) != len(ops):
             pred.append((j, name, script, ["the implementation died or the transcript is incomplete: %s" % (lines[-1:] or "")], reopen))
             continue
         mrep = [dict(t.split("=", 1) for t in r.split()) for r in (model[i] if i < len(model) else "").split(" | ")] if i < len(model) and model[i].startswith("hdr=") else []
@@ -258,16 +261,25 @@ def writer_campaign(ctx, fmts, quick):
                     diffs.append("%s: header byte %d is %02x, model %02x (impl %s model %s)" % (where, x, b[x], h[x], b[:len(h)].hex(), h.hex()))
                 elif t and b[len(b) - len(t):] != t:
                     diffs.append("%s: tail %s, model %s" % (where, b[len(b) - len(t):].hex(), t.hex()))
-        probs, kn = c04_predicate(j, dumps[2], reopen)
-        if kn:
-            known.append((j, name))
+                elif "data" in m:
+                    stats["audio_bytes_compared"] += dl
+                    if b[len(h):len(h) + dl] != bytes.fromhex(m["data"]):
+                        diffs.append("%s: audio bytes %s, model (Enc.encodeAll) %s" % (where, b[len(h):len(h) + dl].hex()[:200], m["data"][:200]))
+        probs = c04_predicate(j, dumps[2], reopen)
+        rw = lines[[k for k, o in enumerate(ops) if o.startswith("open h2 ")][0]]
+        if rw.startswith("open=ok"):
+            stats["rdwr_noop_probes"] += 1
+            if alld[3] != dumps[2]:
+                probs.append("opening the closed file read/write and closing it again changed its bytes: %s -> %s" % (dumps[2][:96].hex(), alld[3][:96].hex()))
+            elif lines[-1].split("frames=")[-1] != reopen.split("frames=")[-1]:
+                probs.append("after a read/write open + close a reader sees %s, before: %s" % (lines[-1], reopen))
         if probs:
             pred.append((j, name, script, probs, reopen))
         elif diffs:
             corr.append((j, name, script, diffs, reopen))
         files.append((j, dumps[1], dumps[2], reopen))
         stats["images"] += 3
-    return jobs, files, corr, pred, known, stats
+    return jobs, files, corr, pred, stats
 
 
 # ---------------------------------------------------------------- reader
@@ -293,9 +305,21 @@ def mutants(b, rng, full):
     bounds = [12] + [off + 4 + size + (size & 1) for (cid, off, size) in chunks if cid != b"SSND"]
     ins = [b"abcd\x00\x00\x00\x05hello\x00", b"JUNK\x00\x00\x00\x00", b"zz~ \x00\x00\x00\x02\x01\x02", b"SFX!\x00\x00\x00\x04\x00\x00\x00\x00",
            b"FVER\x00\x00\x00\x04\xa2\x80\x51\x40", b"ab\x01d\x00\x00\x00\x02xy", b"\x00\x00\x00\x00\x00\x00\x00\x00", b"odd1\x00\x00\x00\x03abc\x00",
-           b"NAME\x00\x00\x00\x02hi", b"FORM\x00\x00\x00\x04AIFF", b"big!\x00\x00\x9c\x40" + bytes(40000)]
+           b"NAME\x00\x00\x00\x02hi", b"FORM\x00\x00\x00\x04AIFF", b"big!\x00\x00\x9c\x40" + bytes(40000),
+           b"NAME\x00\x00\x00\x03abc\x00", b"AUTH\x00\x00\x00\x05hello\x00", b"ANNO\x00\x00\x00\x00", b"(c) \x00\x00\x00\x04copy",
+           b"NAME\x00\x00\x23\x28" + bytes(9000), b"AUTH\x00\x00\x1f\xfe" + bytes(8190), b"ANNO\x00\x00\x1f\xfd" + b"x" * 8189 + b"\x00",
+           b"APPL\x00\x00\x00\x03abc\x00", b"APPL\x00\x00\x00\x08m3gatext", b"APPL\x00\x00\x00\x07m3gaabc\x00", b"APPL\x00\x00\x00\x00", b"APPL\x00\x00\x00\x05m3gax\x00", b"APPL\x00\x00\x00\x04m3ga",
+           b"COMT\x00\x00\x00\x0e\x00\x01\x00\x00\x00\x01\x00\x00\x00\x04text", b"COMT\x00\x00\x00\x0d\x00\x01\x00\x00\x00\x01\x00\x00\x00\x03abc\x00",
+           b"COMT\x00\x00\x00\x14\x00\x02\x00\x00\x00\x01\x00\x00\x00\x00\x00\x00\x00\x02\x00\x07\x00\x02hi", b"COMT\x00\x00\x00\x04\x00\x05\x00\x00",
+           b"INST\x00\x00\x00\x14" + bytes(range(20)), b"INST\x00\x00\x00\x06abcdef",
+           b"MARK\x00\x00\x00\x16\x00\x02\x00\x01\x00\x00\x00\x05\x03abc\x00\x02\x00\x00\x00\x09\x02hi\x00",
+           b"MARK\x00\x00\x00\x02\x00\x00", b"MARK\x00\x00\x00\x06\x0b\xb8abcd", b"MARK\x00\x00\x00\x0c\x00\x03\x00\x01\x00\x00\x00\x05\x03abc"]
+    # the four text chunks at both sides of their (different) size limits
+    lim = [b"%s%s%s" % (m, struct.pack(">I", n), b"t" * n + (b"\x00" if n & 1 else b"")) for (m, l) in ((b"(c) ", 8192), (b"AUTH", 8191), (b"NAME", 8190), (b"ANNO", 8190)) for n in (l - 1, l)]
+    for x in (lim if full else rng.sample(lim, 3)):
+        out.append(("limit:%s%d" % (x[:4].decode("latin1").strip(), struct.unpack(">I", x[4:8])[0]), b[:bounds[-1]] + x + b[bounds[-1]:]))
     for p in bounds:
-        for x in (ins if full else rng.sample(ins, 4)):
+        for x in (ins if full else rng.sample(ins, 12)):
             out.append(("ins@%d:%s" % (p, x[:4].hex()), b[:p] + x + b[p:]))
     out.append(("append-junk", b + b"tail\x00\x00\x00\x02ab"))
     out.append(("append-short", b + b"xy"))
@@ -398,7 +422,7 @@ def run(ctx, found=False):
     """called from vlib/props/c04.py after the common C04 machinery; returns True when it reported a violation"""
     quick = ctx.tier == "quick"
     fmts = aiff_formats(ctx)
-    jobs, files, corr, pred, known, wstats = writer_campaign(ctx, fmts, quick)
+    jobs, files, corr, pred, wstats = writer_campaign(ctx, fmts, quick)
     bad, rstats = reader_campaign(ctx, files, quick)
     # the 80-bit rate on its own: boundaries and seeded values, model against the library's COMM bytes is covered above;
     # here the model's round trip is tabulated for the evidence
@@ -409,32 +433,33 @@ def run(ctx, found=False):
     ctx.coverage["traces_validated_against_impl"] += wstats["sessions"] + rstats["parse_cases"]
     ctx.notes["aiff"] = {"formats": [f.name for f in fmts], "writer": dict(wstats), "reader": dict(rstats),
                          "writer_disagreements": len(corr), "predicate_failures": len(pred), "reader_disagreements": len(bad),
-                         "known_rate_class_sessions": len(known), "rates_tabulated": len(rates), "rates_exact_in_model": exact,
+                         "rates_tabulated": len(rates), "rates_exact_in_model": exact,
                          "rule": "every accepted sample-granular AIFF (major, subtype, endian) x channels {1,2,3,6} x rates {1, 2, 3, 8000, 11025, 44100, 65535, 65536, "
                                  "2^30-1, 2^30, 2^31-1, seeded} x N {0,1,2,3,5,8,4097} (quick: rotating rates per (format, channels, N) plus every rate once per format; "
                                  "thorough: the full product); three store images per session compared byte for byte outside the audio region; "
                                  "library files and their mutants parsed by both sides"}
-    kf = next((k for k in ctx.known if k["id"] == KF_RATE and k.get("status") == "known"), None)
-    if known and kf:
-        ctx.known_finding(kf)
     reported = False
     for (j, name, script, probs, reopen) in pred[:3]:
         reported = True
-        last = reopen if not any("size field" in p or "SSND" in p or "FORM" in p or "COMM" in p for p in probs) else None
+        rdwr = any("read/write" in p for p in probs)
+        last = reopen if not rdwr and not any("size field" in p or "SSND" in p or "FORM" in p or "COMM" in p for p in probs) else None
         text = "# C04 violated on the implementation's own transcript (AIFF container campaign)\n# format %s, %d channel(s), %d Hz, %d frames\n# %s\n" % (
             j.f.name, j.ch, j.sr, j.n, "; ".join(probs))
-        sc = script if last else j.script(reopen=False)
-        if last:
+        sc = script if (last or rdwr) else j.script(reopen=False)
+        if rdwr:
+            sc = "\n".join(script.strip().split("\n")[:-1]) + "\n"      # ends with the dump after the read/write open + close
+            lines, rc, err = ctx.script(sc)
+            if lines:
+                text += "observed-last %s\n" % lines[-1].strip()
+        elif last:
+            sl = script.strip().split("\n")
+            sc = "\n".join(sl[:[k for k, o in enumerate(sl) if o.startswith("open h1 ")][0] + 1]) + "\n"
             text += "observed-last %s\n" % last.strip()
         else:
             lines, rc, err = ctx.script(sc)
             if lines:
                 text += "observed-last %s\n" % lines[-1].strip()
         ctx.violation("c04-aiff-%s" % name, text + "--- script\n" + sc)
-    if known and not kf and not reported:
-        j, name = known[0]
-        reported = True
-        ctx.violation("c04-aiff-rate-%s" % name, "# AIFF: sample rate %d re-opens as 800000000 and no known-finding entry %s covers it\n--- script\n%s" % (j.sr, KF_RATE, j.script()))
     if not reported and not found:
         if corr:
             j, name, script, diffs, reopen = corr[0]
